@@ -58,7 +58,7 @@ impl ILoggerV2 for HLogger {
 
 /// one file of an abstract workspace.  wire form `stem:parent:members:uses:flags`
 /// (`-` = none, lists separated by `+`); the file is `<stem>.god`; flag `n` = the file
-/// declares no class at all, flag `u` = it references unknown types, flag `x` = a method
+/// has no class / module header (its uses list, members and the other flags still apply; the parent is ignored), flag `u` = it references unknown types, flag `x` = a method
 /// body that goes through the uses lists and the parent chain, flag `h` = a method `UseInh<stem>` that
 /// mentions `self.<M>` for every method name of the workspace (probes `use:<M>`: hierarchy requests from a USE site).
 #[derive(Debug, Clone)]
@@ -156,13 +156,19 @@ fn render(spec: &FileSpec, all: &[FileSpec]) -> (String, Option<(usize, usize)>,
     let mut parent_pos = None;
     let mut member_pos = Vec::new();
     let mut probes = Vec::new();
-    if spec.flags.contains('n') {
-        // a file without a class: only a comment and a stray constant
+    let headerless = spec.flags.contains('n');
+    if headerless {
+        // a file without a class / module header: a comment and a stray constant ...
         t.push("; no class in this file".to_string());
         t.push("const cLonely = 'x'".to_string());
-        return (t.lines.join("\n") + "\n", None, None, member_pos, probes);
+        if spec.uses.is_empty() && spec.members.is_empty() && !spec.flags.contains('u') && !spec.flags.contains('x') && !spec.flags.contains('h') {
+            return (t.lines.join("\n") + "\n", None, None, member_pos, probes);
+        }
+        // ... followed by everything a class file has below its header (uses list, types,
+        // fields incl. unknown types, methods, bodies); a parent is ignored: there is no header to name it
     }
     match &spec.parent {
+        _ if headerless => {}
         Some(p) => {
             let l = t.push(format!("class {} ({})", spec.stem, p));
             class_pos = Some((l, 6 + 1.min(spec.stem.len() - 1)));
